@@ -3,7 +3,7 @@ C14 — every derived stream property reflects the current state, never a stale 
 
 Explicit-state search over a REAL stream `s` (single liquid, single gas, multi-phase built directly, multi-phase obtained by
 conversion) and, as they are created by actions, a proxy `p = s.proxy()`, a second stream `k` linked with `s`, and a phase
-view `v = s['l']`.  The memo (`_property_cache`, `_property_cache_key`, also of every phase view held in `_streams`) is part
+view `v = s['g']` / `s['l']`.  The memo (`_property_cache`, `_property_cache_key`, also of every phase view held in `_streams`) is part
 of the canonical state.  Actions are property reads on any of those objects and mutations through every public mutator; the
 mutation alphabet contains pairs that restore an earlier value (T: A -> B -> A, a flow 1 -> 3 -> 1, scale 2 / 0.5), mutations
 that change only the total, only the composition, only the phase split, only WHICH phase holds a given content (whole-row
@@ -24,7 +24,7 @@ RULE = ('BFS over interleavings of property reads and mutations on a real stream
         'memo key incl. its composition copy, memo of every phase view); histories merge iff digests are equal.  A read is non-trivial '
         'when it met a non-empty memo (served from it or had to invalidate it).')
 ASSUMPTIONS = [
-    'package (Water, Ethanol, Methanol) and the re-ordered superset (Ethanol, Methanol, Water, Propanol) for the package change',
+    'package A = (Water, Ethanol, Methanol); package change to the re-ordered superset (Ethanol, Methanol, Water, Propanol) and to AX = the same compiled chemicals with IdealMixture(include_excess_energies=True); copies c = s.copy() / s.copy(thermo=AX)',
     'value alphabet: T in {298.15, 350} (gas: {400, 450}), P in {101325, 5e5}, Water flow in {1, 3}, scale in {2, 0.5}; auxiliary inlet (Water 0.375, Methanol 1, 330 K)',
     'properties read: H S C Cn V rho mu kappa sigma epsilon Hvap Cp alpha nu Pr MW F_vol h; history-building reads are H, h, V, Hvap, sigma (one per memo '
     'name class: flow / per-mole, phase-keyed / phase-free) plus a probe that reads all 18 in a fixed order',
@@ -36,15 +36,30 @@ ASSUMPTIONS = [
 TOLERANCES = {'read_rtol': 1e-12}
 RTOL = 1e-12
 
-ALL_PROPS = ('H', 'S', 'C', 'Cn', 'V', 'rho', 'mu', 'kappa', 'sigma', 'epsilon', 'Hvap', 'Cp', 'alpha', 'nu', 'Pr', 'MW', 'F_vol', 'h')
+ALL_PROPS = ('H', 'S', 'C', 'Cn', 'V', 'rho', 'mu', 'kappa', 'sigma', 'epsilon', 'Hvap', 'Cp', 'alpha', 'nu', 'Pr', 'MW', 'F_vol', 'h',
+             'vol_sum')      # vol_sum = sum of the per-chemical volumetric flows (the view C11 judges entry by entry)
 HIST_READS = ('H', 'h', 'V', 'Hvap', 'sigma')
 MEMO_NAME = {'H': 'H', 'h': 'H', 'S': 'S', 'C': 'Cn', 'Cn': 'Cn', 'V': 'V', 'mu': 'mu', 'kappa': 'kappa', 'sigma': 'sigma',
              'epsilon': 'epsilon', 'Hvap': 'Hvap', 'F_vol': 'V', 'rho': 'V', 'Cp': 'Cn', 'alpha': 'kappa', 'nu': 'mu', 'Pr': 'Cn'}
 A2_IDS = ('Ethanol', 'Methanol', 'Water', 'Propanol')
 
 
+_AX = {}
+
+def thermo_AX():
+    """Package on the SAME compiled chemicals as A but with another mixture model (excess energies included): a package change that
+    leaves chemical order, flows, composition keys and T/P untouched, so only an explicit memo reset can notice it."""
+    A = fx.thermo('A')
+    t = _AX.get(id(A))
+    if t is None or t[0] is not A:
+        tmo = fx.tmo()
+        AX = tmo.Thermo(A.chemicals, mixture=tmo.IdealMixture.from_chemicals(A.chemicals, include_excess_energies=True))
+        t = _AX[id(A)] = (A, AX)
+    return t[1]
+
+
 class St:
-    __slots__ = ('s', 'p', 'k', 'v', 'aux', 'thermos', 'cfg', 'TA', 'TB', 'last')
+    __slots__ = ('s', 'p', 'k', 'v', 'c', 'aux', 'thermos', 'cfg', 'TA', 'TB', 'last')
 
 
 def _is_multi(x):
@@ -78,7 +93,7 @@ def _fresh(x):
 
 def _read(x, q):
     try:
-        v = getattr(x, q)
+        v = float(x.vol.sum()) if q == 'vol_sum' else getattr(x, q)
     except Exception as e:
         return ('exc', type(e).__name__)
     if v is None: return ('none',)
@@ -130,7 +145,7 @@ class C14(System):
         self.only = only
 
     def warm(self):
-        fx.tmo(); fx.thermo('A'); fx.custom_thermo(A2_IDS)
+        fx.tmo(); fx.thermo('A'); fx.custom_thermo(A2_IDS); thermo_AX()
     def reset_globals(self): fx.reset_globals()
     def depth(self, tier): return self._dq if tier == 'quick' else self._dt
     def time_cap(self, tier): return self._tq if tier == 'quick' else self._tt
@@ -149,8 +164,8 @@ class C14(System):
         tmo = fx.tmo()
         kind, extra, warm = config
         A = fx.thermo('A'); A2 = fx.custom_thermo(A2_IDS)
-        st = St(); st.cfg = config; st.thermos = (A, A2)
-        st.p = st.k = st.v = None
+        st = St(); st.cfg = config; st.thermos = (A, A2, thermo_AX())
+        st.p = st.k = st.v = st.c = None
         st.last = None
         if kind == 'l':
             st.TA, st.TB = 298.15, 350.0
@@ -184,7 +199,7 @@ class C14(System):
             st.k = self._new_k(st)
             st.k.link_with(s)
         elif extra == 'view':
-            st.v = s['l']
+            st.v = s['l'] if kind == 'm1' else s['g']      # a view of a non-empty phase; gas, where the mixture models differ most
         if warm and st.v is not None: st.v.H
         return st
 
@@ -199,7 +214,7 @@ class C14(System):
         ids = {}
         def alias(o): return ids.setdefault(id(o), len(ids))
         out = []
-        for nm in ('s', 'p', 'k', 'v'):
+        for nm in ('s', 'p', 'k', 'v', 'c'):
             x = getattr(st, nm)
             if x is None:
                 out.append(None); continue
@@ -212,7 +227,7 @@ class C14(System):
 
     # ---- actions ---------------------------------------------------------------------------------------------
     def _objs(self, st):
-        return [(nm, getattr(st, nm)) for nm in ('s', 'p', 'k', 'v') if getattr(st, nm) is not None]
+        return [(nm, getattr(st, nm)) for nm in ('s', 'p', 'k', 'v', 'c') if getattr(st, nm) is not None]
 
     def actions(self, st):
         s = st.s
@@ -257,13 +272,19 @@ class C14(System):
         acts.append(('copy_like',))
         acts.append(('copy_flow',))
         acts.append(('empty',))
-        if st.p is None: acts.append(('reset_thermo',))     # a proxy keeps its own `_thermo`: package reset of the original with a live proxy is outside the property
+        if st.p is None and (s._thermo is st.thermos[0] or s._thermo is st.thermos[1]): acts.append(('reset_thermo',))
+        if st.p is None and (s._thermo is st.thermos[0] or s._thermo is st.thermos[2]):
+            acts.append(('reset_thermo', 'X'))      # same chemicals, other mixture model
+        if st.c is None and s._thermo is st.thermos[0]:
+            acts += [('mkcopy', None), ('mkcopy', 'X')]     # a proxy keeps its own `_thermo`: package reset of the original with a live proxy is outside the property
         if multi: acts.append(('to_single', 'l'))
         else: acts.append(('phases', 'gl'))
         if st.p is None and s._thermo is st.thermos[0]: acts.append(('mkproxy',))
         if st.k is None: acts += [('mklink', True, True, True), ('mklink', True, True, False), ('mklink', False, True, True)]
         else: acts += [('unlink', 's'), ('unlink', 'k')]
-        if st.v is None and multi and hasattr(s, '_streams') and 'l' in s._imol._phases: acts.append(('mkview',))
+        if st.v is None and multi and hasattr(s, '_streams'):
+            for ph in ('l', 'g'):
+                if ph in s._imol._phases: acts.append(('mkview', ph))
         for nm in ('p', 'k', 'v'):
             x = getattr(st, nm)
             if x is None: continue
@@ -299,7 +320,7 @@ class C14(System):
         return False
 
     def _sat(self, st):
-        return ''.join(c for c, x in (('p', st.p), ('k', st.k), ('v', st.v)) if x is not None)
+        return ''.join(c for c, x in (('p', st.p), ('k', st.k), ('v', st.v), ('c', st.c)) if x is not None)
 
     def step(self, st, a):
         tmo = fx.tmo()
@@ -403,8 +424,13 @@ class C14(System):
         if op == 'empty':
             s.empty(); return 'ok'
         if op == 'reset_thermo':
-            A, A2 = st.thermos
-            s._reset_thermo(A2 if s._thermo is A else A); return 'ok'
+            A, A2, AX = st.thermos
+            if len(a) > 1: s._reset_thermo(AX if s._thermo is A else A)
+            else: s._reset_thermo(A2 if s._thermo is A else A)
+            return 'ok'
+        if op == 'mkcopy':
+            st.c = s.copy() if a[1] is None else s.copy(thermo=st.thermos[2])
+            return 'ok'
         if op == 'phases':
             s.phases = tuple(a[1]); return 'ok'
         if op == 'to_single':
@@ -422,7 +448,7 @@ class C14(System):
         if op == 'unlink':
             (s if a[1] == 's' else st.k).unlink(); return 'ok'
         if op == 'mkview':
-            st.v = s['l']; return 'ok'
+            st.v = s[a[1]]; return 'ok'
         raise ValueError(a)
 
     # ---- evidence ----------------------------------------------------------------------------------------------------
